@@ -74,7 +74,38 @@ def err_kind(e):
     return table.get(n, "other:" + n)
 
 
+TOUCHED = set()          # Generated files (re)written or confirmed by an extractor in this process
+BASELINE_DIR = os.path.join(VERIF, "gen", "baseline")   # Generated/*.lean of the unchanged tree (refreshed by setup.sh)
+
+
+def restore_baseline():
+    """An extractor did not recognise the changed source: put back the Generated files of the unchanged tree for every file
+    no extractor confirmed in this run.  The model is then the model of the unchanged code and its tie to the changed code is
+    the correspondence check alone.  Returns the list of restored file names."""
+    out = []
+    if not os.path.isdir(BASELINE_DIR):
+        return out
+    for fn in sorted(os.listdir(BASELINE_DIR)):
+        if fn.endswith(".lean") and os.path.join(GEN_DIR, fn) not in TOUCHED:
+            with open(os.path.join(BASELINE_DIR, fn)) as f:
+                text = f.read()
+            path = os.path.join(GEN_DIR, fn)
+            try:
+                with open(path) as f:
+                    same = f.read() == text
+            except FileNotFoundError:
+                same = False
+            if not same:
+                tmp = path + ".tmp%d" % os.getpid()
+                with open(tmp, "w") as f:
+                    f.write(text)
+                os.replace(tmp, path)
+                out.append(fn)
+    return out
+
+
 def write_if_changed(path, text):
+    TOUCHED.add(os.path.abspath(path))
     os.makedirs(os.path.dirname(path), exist_ok=True)
     try:
         with open(path) as f:
@@ -380,13 +411,28 @@ def run_property(prop, tier, seed, replay=None):
 
     with Lock():
         # 1. gen
+        unextracted = []     # [(link, detail)] extractors that did not recognise the source
         for g in getattr(mod, "GENERATORS", []):
+            gname = "%s.%s" % (g.__module__.split(".")[-1], g.__name__)
             try:
                 gen_report[g.__name__] = g()
             except ExtractionError as e:
-                broken.append(("extraction:" + g.__name__, str(e)))
+                unextracted.append(("extraction:" + gname, str(e)))
             except Exception as e:  # an extractor crashing on changed source is also an extraction failure
-                broken.append(("extraction:" + g.__name__, "%s: %s" % (type(e).__name__, e)))
+                unextracted.append(("extraction:" + gname, "%s: %s" % (type(e).__name__, e)))
+        fallback = None
+        if unextracted:
+            if getattr(mod, "EXTRACTION_FALLBACK", True) and os.path.isdir(BASELINE_DIR):
+                # The translator recognises the idioms that exist today; a source shape it does not recognise is not by
+                # itself a violation.  Keep the model of the unchanged code (theorems stay proved about it) and let the
+                # second tie - correspondence of that model with the changed code, the property oracle and the larger
+                # search - decide.  Anything they find is reported concretely; if they find nothing the property is shown to
+                # hold through the correspondence tie alone (recorded in the evidence and printed as a NOTE).
+                fallback = {"unrecognised": [{"extractor": l, "detail": d[:600]} for l, d in unextracted],
+                            "restored": restore_baseline()}
+                gen_report["translator_fallback"] = fallback
+            else:
+                broken.extend(unextracted)
         # 2. build
         ok, log, dt = lake_build(list(mod.LEAN_MODULES) + ["FimVerif.Drivers.Proto"] + driver_imports(prop))
         build_ok = ok
@@ -418,6 +464,10 @@ def run_property(prop, tier, seed, replay=None):
         if corr.disagreements:
             broken.append(("correspondence", corr.disagreements[:5]))
 
+    if fallback and corr.evaluations == 0 and not broken:
+        # no second tie to fall back on: the unrecognised source is a broken link after all
+        broken.extend(unextracted)
+
     # 5. oracle on the implementation
     try:
         mod.oracle(ctx, orc)
@@ -436,12 +486,13 @@ def run_property(prop, tier, seed, replay=None):
         else:
             reported.append(v)
 
-    # 6. search when a link broke and nothing concrete (unlisted) is on the table
+    # 6. search when a link broke (or the translator fell back to the model of the unchanged code) and nothing concrete
+    #    (unlisted) is on the table
     searched = None
-    if broken and not reported and hasattr(mod, "search"):
+    if (broken or fallback) and not reported and hasattr(mod, "search"):
         sr = Result()
         try:
-            mod.search(ctx, sr, broken)
+            mod.search(ctx, sr, broken or [(u["extractor"], u["detail"]) for u in fallback["unrecognised"]])
         except Exception:
             ctx.notes.append("search crashed: " + traceback.format_exc()[-1500:])
         searched = sr.evaluations
@@ -511,6 +562,12 @@ def run_property(prop, tier, seed, replay=None):
         json.dump(ev, f, indent=1, sort_keys=True)
         f.write("\n")
 
+    if fallback:
+        state = ("correspondence %d evaluations / %d disagreements, oracle %d, search %s" % (
+            corr.evaluations, len(corr.disagreements), orc.evaluations, searched))
+        lines.append("NOTE: property=%s translator did not recognise the changed source (%s); the model of the unchanged code was "
+                     "kept and tied to the changed code by correspondence only: %s" % (
+                         prop, "; ".join(u["extractor"] for u in fallback["unrecognised"]), state))
     for l in lines:
         print(l)
     print("%s tier=%s seed=%s obligations=%d/%d corr=%d (diff %d) oracle=%d known=%d broken=%s wall=%.1fs -> exit %d" % (
